@@ -55,6 +55,8 @@ def run(chk):
                        "arrays start as zeros and column 0 is never stored")
     chk.rule("R-ELEMWISE", "along the period axis every operation is element-wise: only element-wise library calls, basic "
                            "slices and time-axis (axis=1) reductions touch period-indexed values; store shapes agree")
+    chk.rule("R-CALLS", "the response of a period does not depend on the calls made before: the response functions have no in-place effect on "
+                        "their arguments (record, period list)")
     P = chk.P
     # ------------------------------------------------------------------ R-LIN
     for q in (NJR, "eqsig.sdof.response_series"):
@@ -89,6 +91,16 @@ def run(chk):
     for q in ("eqsig.sdof.pseudo_response_spectra", "eqsig.sdof.true_response_spectra", NJR):
         r = analyse(chk, q, std_args(), atoms=(R, DT, T))
         elementwise_rules(chk, r, q)
+    # ------------------------------------------------------------------ R-CALLS: a call is a function of its arguments only
+    for q in (NJR, "eqsig.sdof.response_series", "eqsig.sdof.pseudo_response_spectra", "eqsig.sdof.true_response_spectra"):
+        r = analyse(chk, q, std_args(), atoms=(R, DT, T))
+        c = "%s:%s" % (r.fi.module.relpath, r.fi.name)
+        bad = [e for e in r.I.events if e.kind == "mutation" and any(t.startswith("p:") for t in (e.origins or ()))]
+        chk.ob("R-CALLS", c + "{arguments}", "the record and the period list are left unchanged (a second call with the same arrays sees the same "
+               "periods: results do not depend on how calls are batched)", not bad,
+               derived=("in-place %s on a value aliasing %s" % (bad[0].how, sorted(t for t in bad[0].origins if t.startswith("p:")))) if bad else
+               "no in-place effect on an argument", loc=bad[0].loc if bad else r.fi.loc(), stmt=bad[0].stmt if bad else None)
+    chk.floor("R-CALLS", 4)
     chk.floor("R-LIN", 40)
     chk.floor("R-CAUSAL", 4)
     chk.floor("R-TINV", 4)
